@@ -39,6 +39,16 @@ mutual
       have hv : vt.all bad = true := by
         cases big <;> simp [Val.typeOf, Ty.all] at ha <;> exact ha.2.2
       simp [ticketSum, all_free_list bad hb vt vals hc.2 hv k]
+    | .left v _, hc, ha, k => by
+      simp only [Val.consistent] at hc
+      simp only [Val.typeOf, Ty.all, Bool.and_eq_true] at ha
+      simp [ticketSum, all_free bad hb v hc ha.2.1 k]
+    | .right _ v, hc, ha, k => by
+      simp only [Val.consistent] at hc
+      simp only [Val.typeOf, Ty.all, Bool.and_eq_true] at ha
+      simp [ticketSum, all_free bad hb v hc ha.2.2 k]
+    | .set _ _, _, _, _ => by simp [ticketSum]
+    | .lam _ _ _, _, _, _ => by simp [ticketSum]
   theorem all_free_list (bad : List String) (hb : bad.contains "ticket" = true) :
       ∀ (t : Ty) (xs : List Val), Val.consistentList t xs = true → t.all bad = true → ∀ k, ticketSumList k xs = 0
     | _, [], _, _, _ => rfl
@@ -79,6 +89,10 @@ theorem toCmp_ty : ∀ (v : Val) (c : Cmp), v.toCmp = some c → v.typeOf = c.ty
   | .some _, _, h => by simp [Val.toCmp] at h
   | .list .., _, h => by simp [Val.toCmp] at h
   | .map .., _, h => by simp [Val.toCmp] at h
+  | .left .., _, h => by simp [Val.toCmp] at h
+  | .right .., _, h => by simp [Val.toCmp] at h
+  | .set .., _, h => by simp [Val.toCmp] at h
+  | .lam .., _, h => by simp [Val.toCmp] at h
 
 /-! ### maps -/
 
